@@ -34,7 +34,8 @@ ASSUMPTIONS = [
     f"(rtol {RTOL64} float64 / {RTOL32} float32 relative to max(1, |data|/h_min^order, |result|)), never by a theorem",
     "spatial_derivatives stores `spacing` as float32; the model receives the float32 value (harness performs the same cast)",
     "'interior' for the replicate-/zero-padded schemes = points whose (composed) stencil does not touch the padding: "
-    "margin 1 for first derivatives (forward/backward/central; prewitt/sobel perpendicular axes), margin 2 for second "
+    "margin 1 for first derivatives with forward/backward/central (forward_central_backward, prewitt and sobel — with the "
+    "replicate-padded averaging of the F-17d repair — are exact on affine fields at EVERY point), margin 2 for second "
     "derivatives (the quantifier's 'grid shapes >= 5' leaves at least one such point); DESIGN 5.0 I-3",
     "F.pad(replicate), F.conv1d(padding=1), F.conv{1,2,3}d(groups=C), slicing, torch.cat behave as documented",
     "mode='bspline': the cubic B-spline weights are taken from cubic_bspline_interpolation_weights as given (C14)",
@@ -784,8 +785,8 @@ def gen_affine(rng: random.Random, tier: str):
 
 def _region(mode, D, margin_fd=1):
     """points where the scheme is claimed exact (first derivatives of the full Jacobian)."""
-    if mode in (None, "forward_central_backward"):
-        return (slice(None),) * D
+    if mode in (None, "forward_central_backward", "prewitt", "sobel"):
+        return (slice(None),) * D      # prewitt / sobel: replicate-padded averaging since the repair of F-17d
     return (slice(margin_fd, -margin_fd),) * D
 
 
@@ -857,6 +858,12 @@ def check_affine(c):
     r = bad(cu[(slice(None), slice(None)) + reg], want, "curl")
     if r:
         return r
+    if mode in (None, "forward_central_backward", "prewitt", "sobel"):
+        d2 = U.flow_derivatives(v, order=2, **kw)
+        for k2, t2 in d2.items():
+            r = bad(t2, torch.zeros_like(t2), "second_affine_zero", float(v.abs().max()))
+            if r:
+                return r
     w = U.lie_bracket(v, u, **kw)
     Cm = A @ B - B @ A
     cv = torch.einsum("nij,nj->ni", A, b) - torch.einsum("nij,nj->ni", B, a)
@@ -1111,7 +1118,8 @@ def check_bspline(c):
 
 ORACLES = [
     Oracle("affine", gen_affine, check_affine, doc="Jacobian / determinant (+-identity) / divergence / curl / Lie bracket of affine "
-           "fields = analytic values; every point for forward_central_backward, margin-1 interior for the padded schemes; "
+           "fields = analytic values; every point for forward_central_backward / prewitt / sobel (and second derivatives of the "
+           "affine field = 0 at every point there), margin-1 interior for forward / backward / central; "
            "all spacing forms"),
     Oracle("quadratic", gen_quadratic, check_quadratic, doc="second derivatives of quadratic fields exact at the margin-2 interior; "
            "mixed derivatives symmetric"),
